@@ -3,11 +3,12 @@ import re
 from kb import Harness, CFGS as KCFGS
 from types_ import VEC, MATS, FLOAT_VECS, LET, SCALARS, draw_vec, draw_scalar, draw_mat, repo_read
 
-CFGS = {"quick": ["sse2", "scalar"], "thorough": ["sse2", "scalar"]}
+CFGS = {"quick": ["sse2", "scalar", "sse2rel", "scalarrel"], "thorough": ["sse2", "scalar", "sse2rel", "scalarrel"]}
 BOUNDS = ("every public method of the float vector, quaternion, matrix and affine types whose parameter types the generator can synthesise (listed as functions_encoded; "
           "skipped ones are listed under 'skipped'), with ALL arguments unconstrained bit patterns (zero, -0, subnormal, inf, NaN in every position included); "
           "sqrt / sin / cos / tan / atan2 / exp / powf / acos_approx are uninterpreted functions (any libm); slice functions: one harness per length 0..N+4 over an exact-size object; "
-          "indices fully symbolic; overflow-checking dev profile in the solver; uninitialised-memory reads are not checked")
+          "indices fully symbolic; overflow-checking dev profile in the solver for every method, and the slice-length and index harnesses repeated on a release-like code generation "
+          "(configurations sse2rel / scalarrel: -C debug-assertions=off, so a guard that is only a debug assertion does not count; Kani keeps overflow checks on regardless); uninitialised-memory reads are not checked")
 ASSUMPTIONS = ["CBMC pointer/bounds instrumentation (--pointer-check --bounds-check --pointer-primitive-check) stands for AddressSanitizer",
                "an uninterpreted function over-approximates every implementation of a transcendental shim"]
 UF_ALL = ("sqrt", "sin", "sin_cos", "tan", "atan2", "exp", "powf", "acos_approx")
@@ -127,7 +128,8 @@ def harnesses(tier, cfg):
     sse = KCFGS[cfg]["sse"]
     Drawer.sse = sse
     hs, skipped = [], []
-    types = [(t.name, vec_file(t, sse)) for t in FLOAT_VECS] + [(q.name, q.file(sse)) for q in QUATS.values()] + [(m.name, m.file(sse)) for m in MATS.values()]
+    rel = cfg.endswith("rel")    # release-like build: only the checks whose guard could be a debug-only assertion (slice lengths, indices) are repeated
+    types = [] if rel else [(t.name, vec_file(t, sse)) for t in FLOAT_VECS] + [(q.name, q.file(sse)) for q in QUATS.values()] + [(m.name, m.file(sse)) for m in MATS.values()]
     for T, f in types:
         src = repo_read(f)
         for name, gen, params, ret in methods_of(T, src):
@@ -158,7 +160,8 @@ def harnesses(tier, cfg):
             h = Harness(f"c18_{T.lower()}_{name}", body, backend="sat", uf=UF_ALL,
                         desc=f"{T}::{name}: no panic, no failed bounds/pointer check for ANY argument bit patterns (glam-assert off)", site=f"{T}::{name}", funcs=[f"{T}::{name}"])
             hs.append(h)
-    harnesses.skipped = skipped
+    if not rel:
+        harnesses.skipped = skipped
     # ---- slice functions: exact-size objects per length
     for t in FLOAT_VECS + [QUATS["Quat"], QUATS["DQuat"]]:
         T, sc = t.name, t.scalar
